@@ -144,7 +144,7 @@ fn main() {
             {
                 for l in txt.lines() {
                     if !l.is_empty() && !l.starts_with('#') {
-                        cases.push(l.to_string());
+                        cases.push(p.refresh_corpus_line(l));
                         stats.bump("corpus_cases");
                     }
                 }
